@@ -34,6 +34,11 @@ func vC19Configs(htp string) []vC19Cfg {
 				Values: []options.HeaderValue{{ClaimSource: &options.ClaimSource{Claim: c}}}})
 			o.InjectResponseHeaders = append(o.InjectResponseHeaders, options.Header{Name: "X-Auth-Claim-" + strings.ReplaceAll(c, "_", "-"),
 				Values: []options.HeaderValue{{ClaimSource: &options.ClaimSource{Claim: c, Prefix: "p:"}}}})
+			// the claim rendered as the user of injected basic credentials, to the upstream and on the response
+			o.InjectRequestHeaders = append(o.InjectRequestHeaders, options.Header{Name: "X-Basic-" + strings.ReplaceAll(c, "_", "-"),
+				Values: []options.HeaderValue{{ClaimSource: &options.ClaimSource{Claim: c, BasicAuthPassword: &options.SecretSource{Value: []byte("pw")}}}}})
+			o.InjectResponseHeaders = append(o.InjectResponseHeaders, options.Header{Name: "X-Auth-Basic-" + strings.ReplaceAll(c, "_", "-"),
+				Values: []options.HeaderValue{{ClaimSource: &options.ClaimSource{Claim: c, BasicAuthPassword: &options.SecretSource{Value: []byte("pw")}}}}})
 		}
 	}
 	var out []vC19Cfg
